@@ -1111,22 +1111,24 @@ class ListProds(ProdsTemplate):
     def _parse_tail_t_elem(self, t_elem: TElement, cleanuper, values_list) -> None:
         # helper for self.transform_t_elem.
         # process subtree corresponding to 'THE_LIST__TAIL' symbol.
-        signature = t_elem.signature()
-        assert signature in self.tail_prods_signatures, (
-            f"Unexpected TElement {t_elem} with signature {signature} encountered "
-            f"while processing list tail. Expected TElement with one of following "
-            f"signatures: \n"
-            f"{', '.join(s for s in sorted(self.tail_prods_signatures))}")
-        item_elem_pos, tail_elem_pos = self.tail_prods_signatures[signature]
+        # (the tail is as long as the list: walk it in a loop, not recursively)
+        while True:
+            signature = t_elem.signature()
+            assert signature in self.tail_prods_signatures, (
+                f"Unexpected TElement {t_elem} with signature {signature} encountered "
+                f"while processing list tail. Expected TElement with one of following "
+                f"signatures: \n"
+                f"{', '.join(s for s in sorted(self.tail_prods_signatures))}")
+            item_elem_pos, tail_elem_pos = self.tail_prods_signatures[signature]
 
-        if item_elem_pos is not None:
-            item_t_elem = t_elem.value[item_elem_pos]
-            cleanuper._cleanup(item_t_elem, for_container=True)
-            values_list.append(item_t_elem)
+            if item_elem_pos is not None:
+                item_t_elem = t_elem.value[item_elem_pos]
+                cleanuper._cleanup(item_t_elem, for_container=True)
+                values_list.append(item_t_elem)
 
-        if tail_elem_pos is not None:
-            tail_t_elem = t_elem.value[tail_elem_pos]
-            self._parse_tail_t_elem(tail_t_elem, cleanuper, values_list)
+            if tail_elem_pos is None:
+                return
+            t_elem = t_elem.value[tail_elem_pos]
 
 
 class MapProds(ProdsTemplate):
@@ -1312,20 +1314,23 @@ class MapProds(ProdsTemplate):
     def _parse_kv_tail(self, t_elem: TElement, cleanuper, kv_pairs):
         # helper for self.transform_t_elem.
         # process subtree corresponding to 'THE_MAP__KV_TAIL' symbol.
-        signature = t_elem.signature()
-        assert signature in self.kv_tail_prods_signatures, (
-            f"Unexpected TElement {t_elem} with signature {signature} encountered "
-            f"while processing map contents. Expected TElement with one of following "
-            f"signatures: \n"
-            f"{', '.join(s for s in sorted(self.kv_tail_prods_signatures))}")
-        kv_pair_pos, kv_tail_pos = self.kv_tail_prods_signatures[signature]
+        # (the tail is as long as the map: walk it in a loop, not recursively)
+        while True:
+            signature = t_elem.signature()
+            assert signature in self.kv_tail_prods_signatures, (
+                f"Unexpected TElement {t_elem} with signature {signature} encountered "
+                f"while processing map contents. Expected TElement with one of following "
+                f"signatures: \n"
+                f"{', '.join(s for s in sorted(self.kv_tail_prods_signatures))}")
+            kv_pair_pos, kv_tail_pos = self.kv_tail_prods_signatures[signature]
 
-        if kv_pair_pos is not None:
-            kv_pair = self._parse_kv_pair(t_elem.value[kv_pair_pos], cleanuper)
-            kv_pairs.append(kv_pair)
+            if kv_pair_pos is not None:
+                kv_pair = self._parse_kv_pair(t_elem.value[kv_pair_pos], cleanuper)
+                kv_pairs.append(kv_pair)
 
-        if kv_tail_pos is not None:
-            self._parse_kv_tail(t_elem.value[kv_tail_pos], cleanuper, kv_pairs)
+            if kv_tail_pos is None:
+                return
+            t_elem = t_elem.value[kv_tail_pos]
 
     def _parse_kv_pair(self, t_elem: TElement, cleanuper):
         # helper for self.transform_t_elem.
